@@ -8,3 +8,8 @@ for fam, nm, nb, what in [(0, 'fix_nil_bool', 3, 'fixint / nil / bool / 0xC1'), 
     OBS.append(Ob(['C09', 'C03', 'C15', 'C16', 'C06'], 'md_variant_' + nm, 'mpd', 'harness/mpd.c', 'h_md_variant', defs=U + ['NB=%d' % nb, 'FAMILY=%d' % fam], unwind=nb + 3, cap=400, hunwind=20, fs='none',
         desc='MsgPackDeserializer::parseVariant == reference decoder on the %s codes: value/width/sign, bit-exact floats, bytes verbatim, truncation at every position => IncompleteInput, container headers hand count and unchanged limit to the (cut) readers' % what,
         bound='every code of the family x all continuations up to %d bytes x every truncation length; arena allocator' % nb))
+UNITS += [Unit('mpd_dd', 'wrappers/mpd.cpp', defs=['ARENA_N=4', 'ARENA_CHUNK=64', 'ARDUINOJSON_POOL_CAPACITY=4', 'ARDUINOJSON_INITIAL_POOL_COUNT=2'])]
+for pl in (2, 5):
+    OBS.append(Ob(['C06', 'C14', 'C09'], 'dedup_msgpack_pre%d' % pl, 'mpd_dd', 'harness/dedup.c', 'h_dedup', defs=['UNIT_H="mpd_dd.h"', 'MSGPACK=1', 'PRELEN=%d' % pl], unwind=14, cap=300, hunwind=12, fs=512,
+        desc='deserializing fixstr "ab\\0cd" into a pool holding one string of %d symbolic bytes: full length kept, shared iff identical, reference count exact (StringBuffer::save / StringPool)' % pl,
+        bound='all values of the %d bytes of the pre-existing string' % pl))
